@@ -39,9 +39,7 @@ def run_driver(repo, out_dir, target_dir, features=None, release=False, log=None
     os.makedirs(out_dir, exist_ok=True)
     os.makedirs(target_dir, exist_ok=True)
     prof = "release" if release else "debug"
-    # cargo would skip the wrapper on a warm target dir: drop zerv's own fingerprints
-    for d in glob.glob(os.path.join(target_dir, prof, ".fingerprint", "zerv-*")):
-        shutil.rmtree(d, ignore_errors=True)
+    # cargo would skip the wrapper on a warm target dir: zerv's own fingerprints are dropped below, under the lock
     env = dict(os.environ)
     env.update({
         "LD_LIBRARY_PATH": nightly_sysroot() + "/lib",
@@ -131,6 +129,14 @@ class Report:
         r["instances"] += 1
         r["violations"] += 1
         self.violations.append({"rule": rule, "key": "%s:%s" % (rule, key), "msg": msg, "site": site, "detail": detail})
+
+    def undecided(self, rule, key, msg, site=None):
+        """a rule instance whose shape the rule does not recognise: no verdict (never an alarm); listed in the evidence"""
+        self.obligations += 1
+        r = self.rules.setdefault(rule, {"instances": 0, "violations": 0})
+        r["instances"] += 1
+        r["undecided"] = r.get("undecided", 0) + 1
+        self.extra.setdefault("undecided", []).append({"rule": rule, "key": key, "why": msg, "site": site})
 
     def floor(self, rule, what, count, floor):
         """fail closed when a rule matched fewer instances than confirmed by hand"""
